@@ -314,3 +314,91 @@ func successImplies(h *ssa.Function, ids ...string) bool {
 	}
 	return true
 }
+
+// c01viaCaller: fn is a private helper (all call sites in one function F) that
+// hands statements to replication; F runs sql.Process on a slice and passes that
+// slice to fn, and fn sends exactly the parameter it received.
+func c01viaCaller(c *core.Ctx, fn *ssa.Function, sink ssa.CallInstruction) bool {
+	if an.StepPolicy == nil || !an.StepPolicy(fn) {
+		return false
+	}
+	ix := indexOf(c)
+	cs := ix.callers[originOf(fn)]
+	if len(cs) == 0 {
+		return false
+	}
+	F := cs[0]
+	procs := an.CallsTo(F, false, "command/sql.Process")
+	if len(procs) == 0 {
+		return false
+	}
+	stmts := an.Unwrap(procs[0].Common().Args[0])
+	var noParse []ssa.Value
+	for _, np := range an.CallsTo(F, false, "http.QueryParams.NoParse") {
+		noParse = append(noParse, np.Value())
+	}
+	bypass := an.SenseEdges(F, noParse, an.IsTrue)
+	okAll := false
+	for _, call := range an.AllCalls(F, false) {
+		if call.Common().StaticCallee() != fn {
+			continue
+		}
+		ci := call.(ssa.Instruction)
+		if len(an.Ungated(an.CutSpec{Fn: F, GateEdge: bypass, NoLift: true,
+			GateInstr: func(in ssa.Instruction) bool { return an.IsCall(in, "command/sql.Process") },
+			Sink:      func(in ssa.Instruction) bool { return in == ci }})) > 0 {
+			return false
+		}
+		// which parameter of fn receives the processed slice
+		pidx := -1
+		for i, a := range call.Common().Args {
+			if an.Unwrap(a) == stmts {
+				pidx = i
+			}
+		}
+		if pidx < 0 || pidx >= len(fn.Params) {
+			return false
+		}
+		p := ssa.Value(fn.Params[pidx])
+		same := false
+		if an.IsCall(sink.(ssa.Instruction), "queue.Queue.Write") {
+			same = an.Unwrap(sink.Common().Args[1]) == p
+		} else {
+			an.Instrs(fn, func(in ssa.Instruction) {
+				if st, ok := in.(*ssa.Store); ok && an.Unwrap(st.Val) == p {
+					if t, f, _, ok := an.FieldOf(st.Addr); ok && t == "Request" && f == "Statements" {
+						same = true
+					}
+				}
+			})
+		}
+		if !same {
+			return false
+		}
+		okAll = true
+	}
+	return okAll
+}
+
+// successBehind: every successful return of the private helper h lies behind
+// one of the edges edgesOf(h) — "h succeeded" implies the tested fact.
+func successBehind(h *ssa.Function, edgesOf func(*ssa.Function) map[an.Edge]bool) bool {
+	if h == nil || len(h.Blocks) == 0 || an.StepPolicy == nil || !an.StepPolicy(h) {
+		return false
+	}
+	edges := edgesOf(h)
+	if len(edges) == 0 {
+		return false
+	}
+	succ := an.SuccessReturns(h)
+	if len(succ) == 0 {
+		return false
+	}
+	for _, r := range succ {
+		ret := r
+		if len(an.Ungated(an.CutSpec{Fn: h, GateEdge: edges, NoLift: true, Sink: func(in ssa.Instruction) bool { return in == ssa.Instruction(ret) }})) > 0 {
+			return false
+		}
+	}
+	return true
+}
